@@ -10,6 +10,7 @@ EXTENDS Integers, Sequences, FiniteSets
 AbsC(x) == IF x < 0 THEN -x ELSE x
 Min2(a, b) == IF a < b THEN a ELSE b
 Max2(a, b) == IF a > b THEN a ELSE b
+MaxOf2(a, b) == Max2(a, b)
 
 \* ---------------------------------------------------------------- vectors
 VSub(a, b) == <<a[1] - b[1], a[2] - b[2], a[3] - b[3]>>
@@ -218,4 +219,89 @@ PieceEndpoints(v, rc, d, o) == /\ Len(o.verts) >= 2
                                /\ PNear(o.verts[Len(o.verts)], ExpQ(DPoint(v, rc, d, d.T)), 3)
 PieceLength(d, o) == AbsC(2 * o.len - d.T * QC) <= 8
 PiecePath(v, rc, d, o) == SamePath(o.verts, DVerts(v, rc, d))
+
+\* ================================================================= C05: resampling, simplifying, gap filling
+\* the exact point at rational arc position pn/pd (in half-units), as <<numerator vector, denominator>>
+PointAtR(v, pn, pd) ==
+    LET c == Cum(v)
+        k == CHOOSE k \in 1..(Len(v) - 1) : 2 * c[k] * pd <= pn /\ pn <= 2 * c[k + 1] * pd
+        len == c[k + 1] - c[k] IN
+    <<VAdd(VScale(2 * len * pd, v[k]), VScale(pn - 2 * c[k] * pd, Edge(v, k))), 2 * len * pd>>
+QR == 16384
+PointMatchesR(q, rp, t) == \A a \in 1..3 : AbsC(q[a] * rp[2] - QR * rp[1][a]) <= rp[2] * t
+CeilDiv(a, b) == (a + b - 1) \div b
+
+\* consecutive samples that fall on the same point of a self-touching curve merge into one vertex
+RECURSIVE DedupRFrom(_, _, _)
+DedupRFrom(e, k, acc) == IF k > Len(e) THEN acc
+                         ELSE IF RPtEq(e[k], acc[Len(acc)]) THEN DedupRFrom(e, k + 1, acc)
+                         ELSE DedupRFrom(e, k + 1, Append(acc, e[k]))
+DedupR(e) == DedupRFrom(e, 2, <<e[1]>>)
+SamplesMatch(w, e) == LET dd == DedupR(e) IN
+    Len(w) = Len(dd) /\ \A k \in 1..Len(dd) : PointMatchesR(w[k], dd[k], 2)
+
+\* by count: n vertices at k*L/(n-1)
+CountSamples(v, n) == LET L2 == 2 * TotalLen(v) IN [k \in 1..n |-> PointAtR(v, (k - 1) * L2, n - 1)]
+ResampleCountOK(v, n, w) == SamplesMatch(w, CountSamples(v, n))
+
+\* by spacing s2 (half-units): m1 intervals, equal margins (L2 - m1*s2)/2 in [0, s2)
+SpacingIntervals(v, s2) ==
+    LET L2 == 2 * TotalLen(v) IN
+    IF L2 % s2 = 0 THEN {L2 \div s2, (L2 \div s2) - 1} ELSE {L2 \div s2}
+SpacingSamples(v, s2, m1) == LET L2 == 2 * TotalLen(v) IN
+    [k \in 1..(m1 + 1) |-> PointAtR(v, (L2 - m1 * s2) + 2 * (k - 1) * s2, 2)]
+\* closing = TRUE: the first sample is repeated at the end (closed source)
+ResampleSpacingOK(v, s2, w, closing) ==
+    \E m1 \in SpacingIntervals(v, s2) :
+        /\ m1 >= 0
+        /\ LET e == SpacingSamples(v, s2, m1) IN SamplesMatch(w, IF closing THEN Append(e, e[1]) ELSE e)
+\* may the construction legitimately fail (fewer than two distinct samples)?
+SpacingMayFail(v, s2, closing) ==
+    \E m1 \in SpacingIntervals(v, s2) : m1 >= 0 /\
+        LET e == SpacingSamples(v, s2, m1) IN Len(DedupR(IF closing THEN Append(e, e[1]) ELSE e)) < 2
+
+\* by maximum spacing s2: ends kept, even spacing not above s2, no more points than needed (+1)
+ResampleMaxSpacingOK(v, s2, w) ==
+    LET L2 == 2 * TotalLen(v) nmin == MaxOf2(2, CeilDiv(L2, s2) + 1) IN
+    \E n \in {nmin, nmin + 1} : SamplesMatch(w, CountSamples(v, n))
+CountMayFail(v, n) == Len(DedupR(CountSamples(v, n))) < 2
+MaxSpacingMayFail(v, s2) == LET L2 == 2 * TotalLen(v) nmin == MaxOf2(2, CeilDiv(L2, s2) + 1) IN CountMayFail(v, nmin)
+
+\* squared distance from lattice point p to segment a-b as a rational <<num, den>>
+SegD2(p, a, b) ==
+    LET e == VSub(b, a) w == VSub(p, a) dd == VDot(e, e) dt == VDot(w, e) IN
+    IF dd = 0 \/ dt <= 0 THEN <<VDot(w, w), 1>>
+    ELSE IF dt >= dd THEN <<D2(p, b), 1>>
+    ELSE <<VDot(w, w) * dd - dt * dt, dd>>
+\* p is within e4/4 of polyline w
+WithinOfPolyline(p, w, e4) == \E k \in 1..(Len(w) - 1) :
+    LET r == SegD2(p, w[k], w[k + 1]) IN 16 * r[1] <= e4 * e4 * r[2]
+
+\* simplification: idx = strictly increasing indices (1-based) of the kept vertices of v
+SimplifyOK(v, e4, idx) ==
+    LET w == [j \in 1..Len(idx) |-> v[idx[j]]] IN
+    /\ Len(idx) >= 2 /\ idx[1] = 1 /\ idx[Len(idx)] = Len(v)
+    /\ \A j \in 1..(Len(idx) - 1) : idx[j] < idx[j + 1]
+    /\ \A k \in 1..Len(v) : (\E j \in 1..Len(idx) : idx[j] = k) \/ WithinOfPolyline(v[k], w, e4)
+
+\* gap filling on a list of lattice points pts with maximum gap m2 (half-units); w quantised (QR) output,
+\* orig = positions in w (1-based, increasing) claimed to hold the original points
+FillGapsOK(pts, m2, w, orig) ==
+    /\ Len(orig) = Len(pts) /\ orig[1] = 1 /\ orig[Len(orig)] = Len(w)
+    /\ \A j \in 1..(Len(orig) - 1) : orig[j] < orig[j + 1]
+    /\ \A j \in 1..Len(pts) : w[orig[j]] = VScale(QR, pts[j])
+    \* no consecutive pair farther apart than the maximum (squared, quantised; 4 d^2 <= m2^2)
+    /\ \A k \in 1..(Len(w) - 1) :
+          LET dv == VSub(w[k + 1], w[k]) IN
+          \* compare in units of QR/64 to stay inside 31 bits
+          LET s == <<dv[1] \div 64, dv[2] \div 64, dv[3] \div 64>> IN
+          4 * VDot(s, s) <= m2 * m2 * (QR \div 64) * (QR \div 64) + 4 * m2 * (QR \div 64) * 8
+    \* inserted points lie on the segment between the surrounding originals
+    /\ \A j \in 1..(Len(orig) - 1) : \A k \in (orig[j] + 1)..(orig[j + 1] - 1) :
+          LET a == pts[j] b == pts[j + 1] e == VSub(b, a)
+              q == VSub(w[k], VScale(QR, a)) cr == VCross(q, e) t == 3 * VNorm1(e) IN
+          /\ AbsC(cr[1]) <= t /\ AbsC(cr[2]) <= t /\ AbsC(cr[3]) <= t
+          /\ VDot(q, e) >= 0 /\ VDot(q, e) <= QR * VDot(e, e)
+          \* and advance monotonically
+          /\ (k > orig[j] + 1 => VDot(VSub(w[k], w[k - 1]), e) > 0)
 =============================================================================
